@@ -74,7 +74,7 @@ static void shard(int sh,int n){ bool th=vf::thorough(); cppcms::json::value cfg
 		if(c.p==HTTP){ c.keepalive=(pi%2==0)&&c.mode!="raw"&&c.mode!="asyncraw"; c.http11=(pi%3==0); }
 		vf::announce(case_str(c)); int dev= big? 1 : 2; if(big&&!th&&variant>=6) dev=0; if(th&&!big&&tl<=200) dev=3; explore_writes(c,dev); (void)smodes; (void)amodes; }
 	vf::guard("runs",n_runs); vf::guard("write_choice_points",g_write_points); vf::guard("partial_writes",g_partial_writes); vf::guard("eagain_writes",g_eagain_writes); vf::guard("app_calls",g_out_calls);
-	if(!g_srv.alive()) vf::violation("service-died","service::run() returned or threw during the exploration: "+g_srv.run_exception,"\"case\":\"service\""); g_srv.stop(); }
+	if(!g_srv.alive()) vf::violation("service-died","service::run() returned or threw during the exploration: "+g_srv.run_exception,"\"case\":\"service\""); g_srv.stop(); if(g_srv.hung_at_stop) vf::violation("service-hung:at-stop","the service's event loop did not leave run() within 8 s of shutdown() (it is stuck)","\"case\":\"service stop\""); }
 
 int main(int argc,char **argv){ vf::init(argc,argv,"C03","exploration"); int n=16; signal(SIGPIPE,SIG_IGN);
 	vf::C().rule="write programs over {w(0,1,7,8,100), char-wise c(9), flush, setbuf(0,1,4)} of length <= 2 (thorough 3) plus sizes {4095,4096,4097,65527,65535,65536,70000,200000} alone / after a flush / followed by one byte, x 8 variants (nogzip, normal+gzip, raw, async full/partial buffering, async raw, copy to page cache plain and gzip) x {http 1.0/1.1 with and without keep-alive follow-up, scgi, fastcgi}; every server writev accepts all | 1 | 2 | half | all-1 bytes or reports would-block (non-blocking modes), explored with <= 2 deviations for bodies <= 20000 bytes (thorough: 3 for bodies <= 200 bytes) and 1 beyond. Body byte i is a fixed function of i. distinct = (protocol, mode, program prefix, default/partial writes)";
